@@ -287,5 +287,12 @@ class ObjState:
 _counter = itertools.count()
 
 
+def reset_counter():
+    """fresh names restart at 0 for every contract: the symbols of a VC (and with them z3's behaviour on it) then do not
+    depend on which other contracts were processed before in the same run"""
+    global _counter
+    _counter = itertools.count()
+
+
 def fresh_name(base: str) -> str:
     return f"{base}!{next(_counter)}".replace("'", "_p")
